@@ -66,9 +66,13 @@ def registry():
                      loops={0: {'invariant': ['self.value == be(self.payload[:_k])', 'bits == pow2(8 * _k)'], 'index': '_k'}},
                      opaque=['spec.der.tlv_ok', 'spec.der.tlv_size', 'spec.der.tlv_content', 'spec.der.explicit_ok'],
                      options={'be_unfold': True}))
-    reg.add(Contract(A + 'DerObject._definite_form', params={'length': 'int[0..18446744073709551615]'},
+    # total for every length that can occur (< 2**64); beyond that (the length octets themselves longer than 8) the function may
+    # refuse (bchr(len + 128) past 255, from 256**127 on) but a value it returns is still the right one
+    reg.add(Contract(A + 'DerObject._definite_form', params={'length': 'nat'},
+                     raises={'ValueError': ('only_if', 'length >= 2 ** 64')},
                      ensures={'ok': 'spec.der.length_ok(result)', 'value': 'spec.der.length_value(result) == length',
-                              'octets': 'spec.der.length_octets(result) == len(result)'},
+                              'octets': 'spec.der.length_octets(result) == len(result)',
+                              'short': 'length < 2 ** 64 ==> len(result) <= 9'},
                      modifies=[], result='bytes', options={'be_unfold': True}))
     lemma_contract(reg, 'spec.der.lemma_len_prefix', {'d': 'bytes', 'p': 'bytes'})
     lemma_contract(reg, 'spec.der.lemma_tlv_build', {'t': 'int', 'd': 'bytes', 'p': 'bytes'},
@@ -77,30 +81,51 @@ def registry():
     lemma_contract(reg, 'spec.der.lemma_tlv_prefix', {'b': 'bytes', 't': 'int[0..255]|none'})
     LEN = ['spec.der.length_ok', 'spec.der.length_octets', 'spec.der.length_value']
     TLV = ['spec.der.tlv_ok', 'spec.der.tlv_size', 'spec.der.tlv_content', 'spec.der.explicit_ok']
-    # non-explicit objects: result == tag || definite(len payload) || payload
+    # result == tag || definite(len inner) || inner, where inner is the payload, or (EXPLICIT) itag || definite(len payload) || payload.
+    # ValueError only for contents that cannot exist (2**64 octets and more; see _definite_form)
+    d_out = 'result[1:len(result) - len(output_payload)]'
+    d_in = 'output_payload[1:len(output_payload) - len(self.payload)]'
+    itag = '(self._inner_tag_octet if hasattr(self, "_inner_tag_octet") else 0)'
     reg.add(Contract(A + 'DerObject.encode', params={},
-                     requires=['self._tag_octet is not None', 'hasattr(self, "payload")', 'not hasattr(self, "_inner_tag_octet")',
-                               'len(self.payload) < 2 ** 64'],
+                     requires=['self._tag_octet is not None', 'hasattr(self, "payload")'],
+                     raises={'ValueError': ('only_if', 'len(self.payload) + 16 >= 2 ** 64')},
                      ensures={'tlv': 'spec.der.tlv_ok(result, self._tag_octet) and spec.der.tlv_size(result) == len(result)',
-                              'content': 'spec.der.tlv_content(result) == self.payload'},
-                     instances={'exit': ['spec.der.lemma_len_prefix(result[1:len(result) - len(self.payload)], self.payload)',
-                                         'spec.der.lemma_tlv_build(self._tag_octet, result[1:len(result) - len(self.payload)], self.payload)']},
-                     lemmas={'exit': {'shape': 'result == bytes([self._tag_octet]) + result[1:len(result) - len(self.payload)] + self.payload',
-                                      'len_ok': 'spec.der.length_ok(result[1:len(result) - len(self.payload)]) and '
-                                                'spec.der.length_octets(result[1:len(result) - len(self.payload)]) == len(result) - len(self.payload) - 1 and '
-                                                'spec.der.length_value(result[1:len(result) - len(self.payload)]) == len(self.payload)'}},
-                     opaque=LEN + TLV, modifies=[], result='bytes'))
-    # NOT PROVED (unregistered): DerInteger.encode -- the invariant value == number*256**len(payload) + be(payload) is non-linear
-    # (number * pow2(...)); preservation times out in z3 with the ground be_cons/pow2 instances tried so far.
+                              'content': 'not hasattr(self, "_inner_tag_octet") ==> spec.der.tlv_content(result) == self.payload',
+                              'explicit': 'hasattr(self, "_inner_tag_octet") ==> (spec.der.explicit_ok(result, self._tag_octet, self._inner_tag_octet) and '
+                                          'spec.der.tlv_content(spec.der.tlv_content(result)) == self.payload)'},
+                     instances={'exit': ['spec.der.lemma_len_prefix(%s, output_payload)' % d_out,
+                                         'spec.der.lemma_tlv_build(self._tag_octet, %s, output_payload)' % d_out,
+                                         'spec.der.lemma_len_prefix(%s, self.payload)' % d_in,
+                                         'spec.der.lemma_tlv_build(%s, %s, self.payload)' % (itag, d_in)]},
+                     lemmas={'exit': {'shape': 'result == bytes([self._tag_octet]) + %s + output_payload' % d_out,
+                                      'len_ok': 'spec.der.length_ok(%s) and spec.der.length_octets(%s) == len(result) - len(output_payload) - 1 and '
+                                                'spec.der.length_value(%s) == len(output_payload)' % (d_out, d_out, d_out),
+                                      'inner_shape': 'hasattr(self, "_inner_tag_octet") ==> output_payload == bytes([self._inner_tag_octet]) + %s + self.payload' % d_in,
+                                      'inner_len_ok': 'hasattr(self, "_inner_tag_octet") ==> (spec.der.length_ok(%s) and spec.der.length_octets(%s) == len(output_payload) - len(self.payload) - 1 and '
+                                                      'spec.der.length_value(%s) == len(self.payload))' % (d_in, d_in, d_in),
+                                      'plain': 'not hasattr(self, "_inner_tag_octet") ==> output_payload == self.payload'}},
+                     opaque=LEN + TLV[:3], modifies=[], result='bytes'))      # explicit_ok stays revealed: a definition over the other three
+    # DerInteger.encode: X.690 8.3 -- the contents octets are the minimal two's complement form of the value, then DerObject.encode.
+    # The invariant value == number * 256**len(payload) + be(payload) is non-linear; the two products that change per iteration are
+    # related by the (separately proved) arithmetic lemmas lemma_shift_split / lemma_scale, called at the loop head and at the exit.
+    lemma_contract(reg, 'spec.der.lemma_shift_split', {'n': 'int', 'L': 'nat'})
+    lemma_contract(reg, 'spec.der.lemma_scale', {'n': 'int', 'c': 'int', 'L': 'nat'})
     reg.add(Contract(A + 'DerInteger.encode', params={}, requires=['self._tag_octet is not None', 'hasattr(self, "value")'],
+                     raises={'ValueError': ('only_if', 'True')},
+                     on_raise={'ValueError': ['len(self.payload) + 16 >= 2 ** 64']},       # only contents that cannot exist are refused
                      ensures={'value': 'spec.der.int_value(self.payload) == self.value',
-                              'minimal': 'spec.der.int_minimal(self.payload)'},
+                              'minimal': 'spec.der.int_minimal(self.payload)',
+                              'tlv': 'spec.der.tlv_ok(result, self._tag_octet) and spec.der.tlv_size(result) == len(result)',
+                              'content': 'not hasattr(self, "_inner_tag_octet") ==> spec.der.tlv_content(result) == self.payload',
+                              'explicit': 'hasattr(self, "_inner_tag_octet") ==> (spec.der.explicit_ok(result, self._tag_octet, self._inner_tag_octet) and '
+                                          'spec.der.tlv_content(spec.der.tlv_content(result)) == self.payload)'},
                      modifies=['self.payload'], result='bytes',
                      loops={0: {'invariant': ['self.value == number * pow2(8 * len(self.payload)) + be(self.payload)',
-                                              'len(self.payload) >= 1 ==> (number < -1 or number > 0 or (number == 0 and self.payload[0] >= 128) or (number == -1 and self.payload[0] < 128))'],
-                                'havoc': ['self.payload']}},
-                     inline=[A + 'DerObject.encode'] if False else [],
-                     options={'be_unfold': True}))
+                                              'len(self.payload) >= 1 ==> (number != 0 and (number == -1 ==> self.payload[0] < 128))'],
+                                'havoc': ['self.payload'],
+                                'instances': {'head': ['spec.der.lemma_shift_split(number, len(self.payload))',
+                                                       'spec.der.lemma_scale(number, 256, len(self.payload))']}}},
+                     opaque=TLV, options={'be_unfold': True, 'on_raise_modifies': ['self.payload']}))
     # DerInteger.decode: DerObject.decode's body with the virtual call resolved to DerInteger._decodeFromStream (inlined here)
     iok = ('(spec.der.explicit_ok(der_encoded, self._tag_octet, self._inner_tag_octet) if hasattr(self, "_inner_tag_octet") '
            'else spec.der.tlv_ok(der_encoded, self._tag_octet))')
@@ -152,5 +177,7 @@ def units(prop, tier):
         return []
     return [pyvc_unit(prop, 'asn1.' + t, registry, [A + t])
             for t in ['BytesIO_EOF.read', 'BytesIO_EOF.read_byte', 'DerObject._decodeLen', 'DerObject._decodeFromStream', 'DerObject.decode',
-                      'DerInteger._decodeFromStream', 'DerObject._definite_form', 'DerObject.encode', 'DerInteger.decode', 'DerSequence._decodeFromStream']] + \
-           [pyvc_unit(prop, 'asn1.lemma.' + t, registry, ['spec.der.' + t]) for t in ['lemma_len_prefix', 'lemma_tlv_build', 'lemma_len_trunc', 'lemma_tlv_prefix']]
+                      'DerInteger._decodeFromStream', 'DerObject._definite_form', 'DerObject.encode', 'DerInteger.encode', 'DerInteger.decode',
+                      'DerSequence._decodeFromStream']] + \
+           [pyvc_unit(prop, 'asn1.lemma.' + t, registry, ['spec.der.' + t])
+            for t in ['lemma_len_prefix', 'lemma_tlv_build', 'lemma_len_trunc', 'lemma_tlv_prefix', 'lemma_shift_split', 'lemma_scale']]
